@@ -138,6 +138,13 @@ func keyMutations(r *fw.Rand) []mut {
 		mut{"key-rsa-jwk-without-n", false, func(m map[string]interface{}) { j := cloneMap(rsaJWK); delete(j, "n"); m["publicKeyJwk"] = j }},
 		mut{"key-rsa-jwk-without-e", false, func(m map[string]interface{}) { j := cloneMap(rsaJWK); delete(j, "e"); m["publicKeyJwk"] = j }},
 		mut{"key-purposes-empty-list", false, func(m map[string]interface{}) { m["purposes"] = []interface{}{} }},
+		mut{"key-purposes-null", false, func(m map[string]interface{}) { m["purposes"] = nil }},
+		mut{"key-purposes-not-a-list", false, func(m map[string]interface{}) { m["purposes"] = "authentication" }},
+		mut{"key-extra-member-with-empty-name", false, func(m map[string]interface{}) { m[""] = "x" }},
+		mut{"key-extra-member-with-empty-name-null", false, func(m map[string]interface{}) { m[""] = nil }},
+		mut{"key-extra-member-blank-name", false, func(m map[string]interface{}) { m[" "] = 1 }},
+		mut{"key-type-null", false, func(m map[string]interface{}) { m["type"] = nil }},
+		mut{"key-jwk-null-with-jwk-type", false, func(m map[string]interface{}) { m["type"] = gen.TJwk2020; m["publicKeyJwk"] = nil }},
 		mut{"key-purposes-unknown", false, func(m map[string]interface{}) { m["purposes"] = []interface{}{"signing"} }},
 		mut{"key-purposes-unknown-second", false, func(m map[string]interface{}) { m["purposes"] = []interface{}{"authentication", "Authentication"} }},
 		mut{"key-purposes-six", false, func(m map[string]interface{}) {
@@ -397,6 +404,10 @@ func runC13(r *fw.Runner) {
 			labelled{"replace/document-not-object", map[string]interface{}{"action": "replace", "document": []interface{}{}}, false},
 			labelled{"replace/foreign-member", map[string]interface{}{"action": "replace", "document": map[string]interface{}{"publicKeys": []interface{}{baseKey(c.Rng, "k")}, "alsoKnownAs": []interface{}{"did:example:x"}}}, false},
 			labelled{"replace/foreign-member-publicKey", map[string]interface{}{"action": "replace", "document": map[string]interface{}{"publicKey": []interface{}{baseKey(c.Rng, "k")}}}, false},
+			labelled{"replace/foreign-member-with-empty-name", map[string]interface{}{"action": "replace", "document": map[string]interface{}{"publicKeys": []interface{}{baseKey(c.Rng, "k")}, "": []interface{}{}}}, false},
+			labelled{"replace/only-keys", map[string]interface{}{"action": "replace", "document": map[string]interface{}{"publicKeys": []interface{}{baseKey(c.Rng, "k")}}}, true},
+			labelled{"replace/only-services", map[string]interface{}{"action": "replace", "document": map[string]interface{}{"services": []interface{}{baseService("s1")}}}, true},
+			labelled{"replace/empty-document", map[string]interface{}{"action": "replace", "document": map[string]interface{}{}}, true},
 			labelled{"replace/foreign-member-id", map[string]interface{}{"action": "replace", "document": map[string]interface{}{"publicKeys": []interface{}{baseKey(c.Rng, "k")}, "id": "did:x:y"}}, false},
 			labelled{"replace/keys-and-services", gen.PReplace([]interface{}{baseKey(c.Rng, "k1"), baseKey(c.Rng, "k2")}, []interface{}{baseService("s1")}), true},
 			labelled{"replace/only-keys", gen.PReplace([]interface{}{baseKey(c.Rng, "k1")}, nil), true},
